@@ -165,7 +165,7 @@ theorem term_exact : (g : GateTerm A) → Spec.WF g → isStabilizerT tbl g = tr
       simp only [nrBits] at hl
       obtain ⟨fl, ops', hc, hl', hi⟩ := iter_exact hbody.1 _ hbody.2 iters ops false hl
       refine ⟨fl, ops', ?_, hl', by simpa only [specMatrix] using hi⟩
-      simp only [conjugateT, hl, ne_eq, not_true_eq_false, ↓reduceIte]
+      simp only [conjugateT, hl, hs, ne_eq, not_true_eq_false, ↓reduceIte, Bool.not_true, Bool.false_eq_true]
       rw [hc]; simp
   | .H, _, hs => ⟨(hp .H trivial hs).1, (hp .H trivial hs).2⟩
   | .X, _, hs => ⟨(hp .X trivial hs).1, (hp .X trivial hs).2⟩
